@@ -19,7 +19,7 @@ PROPERTY = 'C20'
 LEVEL = 'exploration'
 RULE = ("texts of 1..8 examples in standard syntax: assignments, printing calls, echoed values (int, str, list, dict, None), "
         "compound examples with '...' continuations (with and without a terminating bare '...'), function definitions and "
-        "their calls, raising examples with traceback wants (with and without stack lines, multi-line messages), "
+        "their calls, raising examples with traceback wants (with and without stack lines, multi-line messages, attached notes, compiler-raised SyntaxError, exception groups, chained exceptions, no message), "
         "<BLANKLINE>, ';' lines, comment-only examples, try/except, multi-line literals, examples that print and return a "
         "value, inline '# doctest:' directives SKIP / ELLIPSIS / NORMALIZE_WHITESPACE / IGNORE_EXCEPTION_DETAIL; separation "
         "by blank lines and prose; every example at its own indentation 0/2/4/8, changing after a want (directly), after "
@@ -47,10 +47,19 @@ def pv(i):
 class E(Exception): pass
 def boom(i, msg="bad"):
     T.append(i); raise E(msg)
+def boom_noted(i, msg="bad"):
+    T.append(i); e = E(msg); e.add_note("note %d" % i); raise e
+def boom_from(i):
+    T.append(i)
+    try:
+        {}[i]
+    except KeyError as ex:
+        raise E("chained %d" % i) from ex
 '''
 KINDS = ['assign', 'emit', 'val', 'str', 'for', 'def', 'call', 'if', 'raise', 'raise_multi', 'semi', 'mlist', 'comment_ex',
          'skip', 'ellipsis', 'nws', 'blank', 'dict', 'none', 'ied', 'try', 'pv', 'while', 'with', 'raise_builtin', 'strrepr',
-         'float', 'tuple', 'printmulti', 'escstr', 'forval', 'ifval', 'onlyblank', 'ied_dot', 'print_then_raise']
+         'float', 'tuple', 'printmulti', 'escstr', 'forval', 'ifval', 'onlyblank', 'ied_dot', 'print_then_raise', 'raise_noted', 'raise_syntax',
+         'raise_group', 'raise_chained', 'raise_nomsg']
 
 
 def required_cells(tier):
@@ -128,6 +137,17 @@ def gen_example(rng, i, defined):
         src = ['T.append(%d)' % i]
     elif k == 'ied':
         src = ['boom(%d, "detail%d")  # doctest: +IGNORE_EXCEPTION_DETAIL' % (i, i)]
+    elif k == 'raise_noted':
+        # notes attached to the exception (PEP 678) are printed under the message line
+        src = ['boom_noted(%d, "m%d")' % (i, i)]
+    elif k == 'raise_syntax':
+        src = ['compile("x%d = = 1" if T.append(%d) is None else "", "<s>", "exec")' % (i, i)]
+    elif k == 'raise_group':
+        src = ['raise ExceptionGroup("g%d", [ValueError(T.append(%d))])' % (i, i)]
+    elif k == 'raise_chained':
+        src = ['boom_from(%d)' % i]
+    elif k == 'raise_nomsg':
+        src = ['raise KeyError if T.append(%d) is None else 0' % i]
     elif k == 'print_then_raise':
         # text printed before an expected exception is ignored by the standard module
         src = ['emit(%d) or boom(%d, "after output %d")' % (i, i, i)]
@@ -214,9 +234,8 @@ def make(seed):
                 if k in ('ied', 'ied_dot'):
                     want.append('E: other detail')
                 else:
-                    import traceback
-                    last = traceback.format_exception_only(type(exc), exc)[-1].rstrip('\n')
-                    want.extend(last.split('\n'))
+                    from xv import models
+                    want.extend(models.exception_text(exc).split('\n'))
             else:
                 want = []
                 if k == 'ellipsis':
@@ -307,7 +326,8 @@ def check_case(ctx, index, seed, doc_override=None):
         return
     ctx.evaluation()
     ctx.event('stdlib_doctest_passes')
-    if any(e['kind'] in ('for', 'def', 'if', 'try', 'while', 'with', 'raise', 'raise_multi', 'ied', 'ied_dot', 'raise_builtin', 'print_then_raise')
+    if any(e['kind'] in ('for', 'def', 'if', 'try', 'while', 'with', 'raise', 'raise_multi', 'ied', 'ied_dot', 'raise_builtin', 'print_then_raise', 'raise_noted', 'raise_syntax', 'raise_group',
+                            'raise_chained', 'raise_nomsg')
            for e in examples) and len(doc.split('\n')) > len([e for e in examples]):
         ctx.nontrivial(doc)
 
